@@ -63,6 +63,19 @@ def render(cfg, dev):
     return json.dumps(out, indent=1) + "\n"
 
 
+def merge_files(case):
+    """(ipv6 text, raw text) of a merge case"""
+    c = case["tgt"]["parts"]["craw"]
+    for k in ("policies", "groups", "services"):
+        if c[k] == []:
+            c[k] = {}
+    m = case["tgt"]["parts"]["merged"]
+    for k in ("policies", "groups", "services"):
+        if m[k] == []:
+            m[k] = {}
+    return None, render(c, False)
+
+
 # ------------------------------------------------------------------ cmdparse
 
 def parse_script(text):
